@@ -2,7 +2,8 @@
 
 domain : 1-3 simulated terminals with random process-data layouts (FMMU and
          direct addressing), a device reading one input variable and writing
-         one output variable each cycle; the real SyncGroup.run() over the
+         one output variable and two output bits of one byte (in either
+         order) each cycle; the real SyncGroup.run() over the
          frame-level bus on virtual time for 4-8 cycles; per cycle a generated
          input value, output value, frame latency and working-counter errors
          (drawn from what a bus with these terminals can produce).
@@ -38,8 +39,10 @@ RULE = ("Hypothesis draws (terminal layouts, which variables the device "
 ASSUMPTIONS = [
     "latencies stay below the 20 ms response time-out; lost transmissions "
     "are re-sent by the group after that time-out",
-    "wrong working counters are in 0..3 x terminals (what a bus can produce), "
-    "injected by adding to the counter the terminals produced",
+    "wrong working counters are what a bus can produce: up to 3 x terminals "
+    "too high or one too low (never below zero), also one too high and one "
+    "too low in the same frame; injected by changing the counter the "
+    "simulated terminals produced",
     "ebpfcat.ebpfcat.monotonic is the virtual loop's clock",
 ]
 EXAMPLES = {"quick": 40, "thorough": 5000}
@@ -57,6 +60,11 @@ def case_strategy(draw):
     fo = draw(st.sampled_from("BHIhiq"))
     terms[ti]["in"].append({"name": "rin", "size": fi, "via": "packet"})
     terms[to]["out"].append({"name": "rout", "size": fo, "via": "packet"})
+    # two single-bit outputs in one byte, set every cycle
+    b0 = draw(st.integers(0, 7))
+    b1 = draw(st.integers(0, 7).filter(lambda b: b != b0))
+    terms[to]["out"].append({"name": "rb0", "size": b0, "via": "packet"})
+    terms[to]["out"].append({"name": "rb1", "size": b1, "via": "packet"})
     ncyc = draw(st.integers(4, 8))
     cycles = []
     for _ in range(ncyc + 1):
@@ -66,9 +74,17 @@ def case_strategy(draw):
             "input": draw(st.integers(lo, hi)),
             "output": draw(st.integers(lo2, hi2)),
             "latency": draw(st.sampled_from([0, 0, 1, 5])),
-            "wkc": draw(st.dictionaries(st.integers(1, 5),
-                                        st.integers(1, 3 * nt), max_size=2)
-                        if draw(st.integers(0, 2)) == 0 else st.just({})),
+            # counters too high, too low (a terminal that did not answer),
+            # or one too high and one too low in the same frame
+            "wkc": draw(st.one_of(
+                st.dictionaries(st.integers(1, 5), st.integers(1, 3 * nt)
+                                | st.just(-1), max_size=2),
+                st.tuples(st.integers(1, 3), st.integers(1, 3),
+                          st.integers(1, 2)).map(
+                    lambda t: {t[0]: t[2], t[0] + t[1]: -t[2]}))
+                if draw(st.integers(0, 2)) == 0 else st.just({})),
+            "bits": [draw(st.booleans()), draw(st.booleans()),
+                     draw(st.booleans())],     # rb0, rb1, rb1 first
         })
     # cyclic transmissions that get lost on the way (the group re-sends after
     # its 20 ms time-out)
@@ -91,17 +107,28 @@ def strategy(tier):
 class Recorder(Device):
     inp = TerminalVar()
     out = TerminalVar()
+    bit0 = TerminalVar()
+    bit1 = TerminalVar()
 
     def __init__(self):
         self.seen = []
         self.errors = []
         self.script = []
+        self.bits = []
 
     def update(self):
         self.seen.append(self.inp)
         self.errors.append(self.sync_group.wkc_errors)
         if self.script:
             self.out = self.script.pop(0)
+        if self.bits:
+            v0, v1, second_first = self.bits.pop(0)
+            if second_first:
+                self.bit1 = v1
+                self.bit0 = v0
+            else:
+                self.bit0 = v0
+                self.bit1 = v1
 
 
 def run_case(case):
@@ -155,6 +182,11 @@ def run_case(case):
         dev.inp = getattr(rig.terms[ti], iname)
         dev.out = getattr(rig.terms[to], oname)
         dev.script = [c["output"] for c in cycles]
+        if "rb0" in rig.terms[to].layout["out"]:
+            dev.bit0 = rig.terms[to].rb0
+            dev.bit1 = rig.terms[to].rb1
+            dev.bits = [list(c.get("bits") or [False, False, False])
+                        for c in cycles]
         sg = SyncGroup(rig.ec, [dev])
         rig.sg = sg
         for t in sg.terminals:
@@ -212,8 +244,9 @@ def run_case(case):
     if hist["end"] != "cancelled":
         return fail(f"the group task ended as '{hist['end']}' after "
                     f"{len(dev.seen)} updates")
-    cyclic_frames = [(s, r) for s, r in rig.frames
-                     if struct.unpack_from("<I", s, 4)[0] == 1000]
+    cyclic_nos = [no for no, (s, r) in enumerate(rig.frames)
+                  if struct.unpack_from("<I", s, 4)[0] == 1000]
+    cyclic_frames = [rig.frames[no] for no in cyclic_nos]
     # a lost transmission is repeated unchanged after the time-out
     sent = [f for f in rig.transport.sent
             if struct.unpack_from("<I", f, 4)[0] == 1000]
@@ -258,14 +291,28 @@ def run_case(case):
                 if got != want:
                     return fail(f"cyclic frame {k} carries output {got}, "
                                 f"update {k - 1} had set {want}")
+                lay = t_out.layout["out"]
+                if "rb0" in lay:
+                    v0, v1, second_first = cycles[min(k - 1, ncyc)]["bits"]
+                    base = sg.pdo_assign[t_out][SyncManager.OUT]
+                    for name, v in (("rb0", v0), ("rb1", v1)):
+                        bit = next(x["size"] for x
+                                   in case["terminals"][to]["out"]
+                                   if x["name"] == name)
+                        got = bool(sent[base + lay[name]] >> bit & 1)
+                        if got != v:
+                            return fail(
+                                f"cyclic frame {k} carries output bit "
+                                f"{name} (bit {bit}) = {got}, update {k - 1} "
+                                f"had set {(v0, v1)} "
+                                f"({'rb1 first' if second_first else 'rb0 first'})")
         if 1 <= k < len(dev.errors):
             length, ftype, rd, end = frames.parse(back)
             # independent of the library's own expectation: the simulated
             # terminals answer like healthy ones, a counter is wrong exactly
             # where the case injected a fault
-            inj = cycles[min(k, ncyc)]["wkc"]
-            wrong = sum(1 for i in range(1, len(rd))
-                        if inj.get(i) or inj.get(str(i)))
+            wrong = len([i for i in rig.applied.get(cyclic_nos[k], {})
+                         if 1 <= i < len(rd)])
             inc = dev.errors[k] - dev.errors[k - 1]
             if wrong:
                 faults += 1
